@@ -150,7 +150,7 @@ use core::sync::atomic::{AtomicBool, AtomicUsize};
 
 #[cfg(feature = "std")]
 use std::{
-    cell::{Cell, RefCell, RefMut},
+    cell::{Cell, Ref, RefCell},
     error,
 };
 
@@ -459,14 +459,14 @@ where
             if state.can_enter.replace(false) {
                 let _guard = Entered(&state.can_enter);
 
-                let mut default = state.default.borrow_mut();
-                let default = default
-                    // if the local default for this thread has never been set,
-                    // populate it with the global default, so we don't have to
-                    // keep getting the global on every `get_default_slow` call.
-                    .get_or_insert_with(|| get_global().clone());
-
-                return f(&*default);
+                let default = state.default.borrow();
+                return match &*default {
+                    Some(default) => f(default),
+                    // if this thread has no scoped default, use the global
+                    // default. The global default must not be cached in the
+                    // thread-local: it may not have been set yet.
+                    None => f(get_global()),
+                };
             }
 
             f(&Dispatch::none())
@@ -1025,15 +1025,13 @@ impl State {
         let prior = CURRENT_STATE
             .try_with(|state| {
                 state.can_enter.set(true);
-                state
-                    .default
-                    .replace(Some(new_dispatch))
-                    // if the scoped default was not set on this thread, set the
-                    // `prior` default to the global default to populate the
-                    // scoped default when unsetting *this* default
-                    .unwrap_or_else(|| get_global().clone())
+                // if no scoped default was set on this thread, the prior
+                // default is `None`, so that the thread falls back to the
+                // global default again when *this* default is unset.
+                state.default.replace(Some(new_dispatch))
             })
-            .ok();
+            .ok()
+            .flatten();
         EXISTS.store(true, Ordering::Release);
         #[cfg(feature = "verif-hooks")]
         crate::verif::point(crate::verif::site::SD_AFTER_REPLACE);
@@ -1056,10 +1054,11 @@ impl State {
 #[cfg(feature = "std")]
 impl<'a> Entered<'a> {
     #[inline]
-    fn current(&self) -> RefMut<'a, Dispatch> {
-        let default = self.0.default.borrow_mut();
-        RefMut::map(default, |default| {
-            default.get_or_insert_with(|| get_global().clone())
+    fn current(&self) -> Ref<'a, Dispatch> {
+        let default = self.0.default.borrow();
+        Ref::map(default, |default| match default {
+            Some(default) => default,
+            None => get_global(),
         })
     }
 }
@@ -1081,15 +1080,13 @@ impl Drop for DefaultGuard {
         SCOPED_COUNT.fetch_sub(1, Ordering::Release);
         #[cfg(feature = "verif-hooks")]
         crate::verif::point(crate::verif::site::DG_AFTER_DEC);
-        if let Some(dispatch) = self.0.take() {
-            // Replace the dispatcher and then drop the old one outside
-            // of the thread-local context. Dropping the dispatch may
-            // lead to the drop of a collector which, in the process,
-            // could then also attempt to access the same thread local
-            // state -- causing a clash.
-            let prev = CURRENT_STATE.try_with(|state| state.default.replace(Some(dispatch)));
-            drop(prev)
-        }
+        // Replace the dispatcher and then drop the old one outside
+        // of the thread-local context. Dropping the dispatch may
+        // lead to the drop of a collector which, in the process,
+        // could then also attempt to access the same thread local
+        // state -- causing a clash.
+        let prev = CURRENT_STATE.try_with(|state| state.default.replace(self.0.take()));
+        drop(prev)
     }
 }
 
